@@ -394,7 +394,10 @@ async fn body(seed: u64, trace: Arc<Trace>, threaded: bool) -> Outcome {
             for r in &recs {
                 if let Ev::Enter { uid, cb, .. } = &r.ev {
                     if *uid == nodes[i].uid && r.ts > t_exit {
-                        if allowance == 0 || *cb == Cb::PostStop {
+                        // (thread engine: the one callback start that may be in flight when the kill lands can be post_stop
+                        // too - a draining descendant that reached its marker polls the still-empty signal port and begins
+                        // post_stop just as the ancestor's kill arrives; the virtual-time engine allows nothing)
+                        if allowance == 0 {
                             v.push((
                                 "descendant-not-killed".into(),
                                 format!(
